@@ -74,6 +74,98 @@ func genOp(r *kit.Rng, pk string, al Alphabets) *Op {
 	return o
 }
 
+// pointReads: a Get for every key of the batch (sometimes with another read in between)
+func pointReads(r *kit.Rng, batch *Op) []*Op {
+	var ops []*Op
+	for _, c := range batch.CCs {
+		if r.Chance(1, 6) {
+			ops = append(ops, &Op{Op: kit.Pick(r, []string{"TTLGet", "QueryTTL"}), PK: batch.PK, CC: c})
+		}
+		ops = append(ops, &Op{Op: "Get", PK: batch.PK, CC: c, CCNil: c == "" && r.Bool()})
+	}
+	return ops
+}
+
+// batchOver: a GetBatch over the given keys mixed with up to two others
+func batchOver(r *kit.Rng, pk string, keys []string, al Alphabets) *Op {
+	o := &Op{Op: "GetBatch", PK: pk}
+	o.CCs = append(o.CCs, keys...)
+	for i, n := 0, r.Intn(3); i < n; i++ {
+		o.CCs = append(o.CCs, kit.Pick(r, al.CCs))
+	}
+	for i := len(o.CCs) - 1; i > 0; i-- {
+		j := r.Intn(i + 1)
+		o.CCs[i], o.CCs[j] = o.CCs[j], o.CCs[i]
+	}
+	return o
+}
+
+func batchPointProbe(r *kit.Rng, pk string, al Alphabets) []*Op {
+	var probe []*Op
+	var keys []string
+	maxTTL := 0
+	for i, n := 0, 1+r.Intn(2); i < n; i++ {
+		c := kit.Pick(r, al.CCs)
+		ttl := 1 + r.Intn(3)
+		if ttl > maxTTL {
+			maxTTL = ttl
+		}
+		keys = append(keys, c)
+		switch r.Intn(3) {
+		case 0: // on a row of the history the insert may be refused: then the probe reads whatever is there
+			probe = append(probe, &Op{Op: "Ins", PK: pk, CC: c, V: "7631", TTL: ttl})
+		case 1:
+			probe = append(probe, &Op{Op: "Put", PK: pk, CC: c, V: "7630"}, &Op{Op: "Cas", PK: pk, CC: c, Old: "7630", V: kit.Pick(r, []string{"7631", ""}), TTL: ttl})
+		default: // certainly absent before: removed, then inserted
+			probe = append(probe, &Op{Op: "Put", PK: pk, CC: c, V: "7630"}, &Op{Op: "Cad", PK: pk, CC: c, Old: "7630"},
+				&Op{Op: "Ins", PK: pk, CC: c, V: kit.Pick(r, []string{"7632", ""}), TTL: ttl})
+		}
+	}
+	if r.Chance(1, 3) {
+		c := kit.Pick(r, al.CCs)
+		keys = append(keys, c)
+		probe = append(probe, &Op{Op: "Put", PK: pk, CC: c, V: kit.Pick(r, vals)})
+	}
+	exp := int64(maxTTL) * 1000
+	var adv int64
+	switch r.Intn(8) {
+	case 0:
+		adv = exp - 1
+	case 1:
+		adv = 0 // no advance at all
+	case 2, 3:
+		adv = exp
+	case 4, 5:
+		adv = exp + kit.Pick(r, []int64{1, 1000, 60000, 3500000})
+	case 6:
+		adv = 3599999 // one millisecond before the first cleaner run of a fresh history
+	default:
+		adv = 3600000 + kit.Pick(r, []int64{0, 1, 5000}) // the cleaner has run
+	}
+	if adv > 0 {
+		probe = append(probe, &Op{Op: "Advance", Ms: adv})
+	}
+	for round, rounds := 0, 1+r.Intn(2); round < rounds; round++ {
+		if r.Chance(2, 3) {
+			b := batchOver(r, pk, keys, al)
+			probe = append(probe, b)
+			probe = append(probe, pointReads(r, b)...)
+		} else {
+			for _, c := range keys {
+				probe = append(probe, &Op{Op: "Get", PK: pk, CC: c})
+			}
+			if r.Chance(1, 3) {
+				probe = append(probe, &Op{Op: kit.Pick(r, []string{"Read", "TTLRead"}), PK: pk})
+			}
+			probe = append(probe, batchOver(r, pk, keys, al))
+		}
+		if round+1 < rounds { // a second look later: further past the expiry, or across the cleaner
+			probe = append(probe, &Op{Op: "Advance", Ms: kit.Pick(r, []int64{1, 1000, 3000, 3600000})})
+		}
+	}
+	return probe
+}
+
 func genHistory(r *kit.Rng, backend string) *History { return GenHistory(r, backend, Default) }
 
 // GenHistory generates one history over the given alphabets
@@ -88,7 +180,16 @@ func GenHistory(r *kit.Rng, backend string, al Alphabets) *History {
 		if r.Chance(1, 8) {
 			pk = kit.Pick(r, pks)
 		}
-		h.Ops = append(h.Ops, genOp(r, pk, al))
+		o := genOp(r, pk, al)
+		h.Ops = append(h.Ops, o)
+		// batch reads agree with point reads: the same keys through the other call before anything
+		// can change (only reads in between), whatever kind of row the history has left there
+		switch {
+		case o.Op == "GetBatch" && r.Chance(3, 5):
+			h.Ops = append(h.Ops, pointReads(r, o)...)
+		case o.Op == "Get" && r.Chance(1, 3):
+			h.Ops = append(h.Ops, batchOver(r, o.PK, []string{o.CC}, al))
+		}
 	}
 	// TTL window probe: a TTL write at a clock value off the whole second, then point reads one
 	// millisecond before the expiry, at it and after it (the row must be visible up to, not including,
@@ -106,6 +207,15 @@ func GenHistory(r *kit.Rng, backend string, al Alphabets) *History {
 		probe = append(probe, &Op{Op: "Advance", Ms: int64(ttl)*1000 - frac}, &Op{Op: "TTLGet", PK: pk, CC: cc},
 			&Op{Op: "Advance", Ms: frac - 1}, &Op{Op: "TTLGet", PK: pk, CC: cc}, &Op{Op: "QueryTTL", PK: pk, CC: cc}, &Op{Op: "TTLRead", PK: pk},
 			&Op{Op: "Advance", Ms: 1}, &Op{Op: "TTLGet", PK: pk, CC: cc}, &Op{Op: "Get", PK: pk, CC: cc})
+		at := r.Intn(len(h.Ops) + 1)
+		h.Ops = append(h.Ops[:at:at], append(probe, h.Ops[at:]...)...)
+	}
+	// batch / point probe on rows written with a TTL: one or two such rows (and sometimes a plain
+	// one), the clock moved to before, onto or past the expiry - mostly short of the hourly cleaner,
+	// where mem already hides the row from plain reads and bbolt still shows it - then the rows read
+	// through GetBatch and through Get with nothing but reads in between, in either order
+	if r.Chance(3, 5) {
+		probe := batchPointProbe(r, kit.Pick(r, hot), al)
 		at := r.Intn(len(h.Ops) + 1)
 		h.Ops = append(h.Ops[:at:at], append(probe, h.Ops[at:]...)...)
 	}
